@@ -52,4 +52,11 @@ theorem pn_encode (m : PNMsgFile.ParameterNumberMessage) (hm : (PNM.msg m).Valid
   rw [PNM.to_short_messages, PNM.to_short_messages]
   exact ⟨C09.encode_raw _ hm _, C09.encode_structured _ hm _⟩
 
+/-- C09, last clause, for the translated code: the array conversion equals MSB-first encoding (and C07: the array
+    conversion of a 14-bit CC message is its encoding) -/
+theorem array_conversions {β : Type} (F : Factory β) (m : PNMsgFile.ParameterNumberMessage) (c : CCMsg.ControlChange14BitMessage) :
+    PNMsgFile.ParameterNumberMessage.from_array F m = m.to_short_messages F .MsbFirst ∧
+    CCMsg.ControlChange14BitMessage.from_array F c = c.to_short_messages F :=
+  ⟨PNM.from_array F m, CCM.from_array F c⟩
+
 end Midi.Props.TMsg
